@@ -676,7 +676,9 @@ class PPG3204():
             size = np.clip(size, 1, self.MAX_MEMORY_LEN - start_addrs + 1)
 
         if size > self.MAX_CHUNK_LEN:
-            bits_count = np.concatenate((np.tile([self.MAX_CHUNK_LEN], size//self.MAX_CHUNK_LEN), [size%self.MAX_CHUNK_LEN]))
+            bits_count = np.tile([self.MAX_CHUNK_LEN], size//self.MAX_CHUNK_LEN)
+            if size%self.MAX_CHUNK_LEN:
+                bits_count = np.concatenate((bits_count, [size%self.MAX_CHUNK_LEN]))
         else:
             bits_count = [size]
 
